@@ -482,7 +482,8 @@ for i = 1, 3 do t[i] = i * 2 s = s .. i end
 local function mk(k) local n = k return function() n = n + 1 return n end end
 local c = mk(seed)
 local mt = setmetatable({}, {__index = function(_, k) return k .. "!" end})
-emit(s .. c() .. c() .. mt.x .. #t .. ("ab"):rep(2):upper() .. -(1 + 2))
+local day = seed % (24 * 60 * 60) + (2 ^ 3) * seed + (seed - -(1 + 2)) + (1 + 2) * (3 + 4)
+emit(s .. c() .. c() .. mt.x .. #t .. ("ab"):rep(2):upper() .. -(1 + 2) .. day)
 `
 
 var c13StepCtrl sync.Map // *lua.Global -> *sched.Controller
